@@ -1,5 +1,6 @@
 """C02 - one linear order is shared by polygons, centres, flattened data and selectors."""
 import itertools
+import warnings
 from fractions import Fraction
 
 import numpy
@@ -77,7 +78,14 @@ def run(ctx):
         winds = '[' + '; '.join(
             f'({KCODE[flav][k]}, wind_table {g} {KCODE[flav][k]} 0 {int(numpy.prod(s))})' for k, s in shapes.items()) + ']'
         ems = d.ds.ems
-        polys = pm.impl_polygons(ems)
+        with warnings.catch_warnings():
+            warnings.simplefilter('ignore')
+            r = attempt(pm.impl_polygons, ems)
+        if r[0] != 'ok':
+            ctx.report('property', f'the polygons of the dataset cannot be built: {r[1]}', {'dataset': d.spec['label'], 'what': 'polygons'})
+            snaps.pop()
+            continue
+        polys = r[1]
         # query geometries for the spatial index: boxes built from polygon vertices, and points
         rings = [p for p in polys if p is not None]
         queries = []
